@@ -141,4 +141,31 @@ theorem check_input_eq {Î± : Type} (n m : Nat) (name kind : String) (vs : List Î
     rw [if_neg this]
     exact hc
 
+
+/-- `__check_modes__`: every mode of the broadcast table is a `ModeSolver` value, else `ValueError` -/
+theorem check_modes_eq (modes : Option (List (List String))) : Src.check_modes modes = checkModes modes := by
+  unfold Src.check_modes checkModes
+  cases modes with
+  | none => rfl
+  | some t =>
+    simp only [List.all_map, Function.comp_def]
+    cases h : t.flatten.all validMode <;> simp [h] <;> rfl
+
+/-- `__get_mode__`: `"serial"` without a table, else `self._modes[id_optimizer][id_prob]`, parsed by `ModeSolver` -/
+theorem get_mode_eq (modes : Option (List (List String))) (i j : Nat) : Src.get_mode modes i j = getMode modes i j := by
+  unfold Src.get_mode getMode
+  cases modes with
+  | none => rfl
+  | some t =>
+    simp only [getNat_eq, lookup]
+    cases hi : t[i]? with
+    | none => rfl
+    | some row =>
+      simp only [except_ok_bind, Option.bind_some]
+      cases hj : row[j]? with
+      | none => rfl
+      | some s0 =>
+        simp only [except_ok_bind, bind_pure, Multi.parseMode]
+        cases Mode.ofString s0 <;> rfl
+
 end R20
